@@ -176,3 +176,15 @@ func init() {
 		},
 	}
 }
+
+func init() {
+	properties["C04"] = Property{
+		Level: "exploration",
+		Rule: "cases = generated call chains of 3-9 frames across 1-3 packages and up to 3 files per package, each frame a function, value/pointer method, generic function, generic method, closure, goroutine entry (named helper or function literal), deferred call or deferred function literal, ending in a panic, debug.PrintStack or runtime.Caller queries; configuration from {default, -literals, -seed, -tags with tag-dependent files}; plus 0-4 lines of surrounding text (CR LF, missing final newline, 2000-byte lines, NUL bytes, look-alike trace lines). Oracle: `garble reverse` applied to the garbled program's stderr equals the stderr of the regular -trimpath build after removing code offsets, argument words and goroutine numbers; text without obfuscated tokens passes through byte for byte with exit status 1; a trace embedded in such text is reversed in place. Non-trivial = at least three obfuscated position lines and a frame outside package main; distinct = (frame kind sequence, end action, configuration).",
+		Assumptions: append([]string{"every generated call sits on one line and starts with an identifier (call-site positions are what the statement covers)"}, commonAssumptions...),
+		ReplayUnit:  "TestC04Replay",
+		Units: []Unit{
+			{Name: "TestC04", Kind: "e2e", Checks: [2]int{6, 60}, Workers: [2]int{4, 8}},
+		},
+	}
+}
